@@ -103,17 +103,24 @@ func checkC18(c *Ctx, w *World) {
 			cv, ok := stripConv(v).(*ssa.Convert)
 			return ok && cv.X == ssa.Value(bo.Params[1])
 		}
-		okClamp := false
+		okClamp := len(returnsOf(bo)) > 0
 		why := "return value is not a clamped float converted to a duration"
 		for _, r := range returnsOf(bo) {
 			cv, ok := r.Results[0].(*ssa.Convert)
 			if !ok {
+				okClamp = false
 				continue
 			}
+			if maxF(cv.X) {
+				continue // the maximum itself
+			}
 			ph, ok := cv.X.(*ssa.Phi)
-			if !ok {
-				if maxF(cv.X) {
-					okClamp = true
+			if !ok || ph.Block() != r.Block() {
+				// the value is returned as it is: the way to this return must have tested 'value > max' false
+				cs := newCondSpace(bo, recOf(ltAtom("over", maxF, isVal(cv.X))), "over")
+				if imp, wit := cs.Implies(cs.Reach(r), cs.Not(cs.Atom("over"))); !imp || !cs.Seen("over") {
+					okClamp = false
+					why = "a value can be returned without having been compared against the maximum: " + wit
 				}
 				continue
 			}
@@ -135,7 +142,9 @@ func checkC18(c *Ctx, w *World) {
 					why = "a value can be returned without having been compared against the maximum: " + wit
 				}
 			}
-			okClamp = good
+			if !good {
+				okClamp = false
+			}
 		}
 		c.check(okClamp, "C18.clamp", "backoff: upper bound", p.pos(bo.Pos()), "the returned duration is the maximum, or a value for which 'value > max' was tested false on that path", why)
 		// necessary for "at least the base delay" and "non-decreasing in the retry count": inside the loop the
@@ -277,11 +286,21 @@ func checkC18(c *Ctx, w *World) {
 						x, y = y, x
 					}
 					ms, isC := constInt(y)
-					if ex, isE := stripConv(x).(*ssa.Extract); isC && ms == 1000000 && isE && ex.Index == 0 {
-						if pc, isP := staticCallNamed(ex.Tuple, "strconv.ParseInt"); isP && entry != nil && restAfterPrefix(pc.Call.Args[0], entry, "gfet4t7; dur=") {
-							if base, isB := constInt(pc.Call.Args[1]); isB && base == 10 {
-								val = true
+					// what the multiplied number can be on the ways to this exit (it may have travelled through the
+					// results of a helper that also has a "no match" exit)
+					cands := cs.ResolveUnder(x, vr.Cond)
+					val = isC && ms == 1000000 && len(cands) > 0
+					for _, cand := range cands {
+						good := false
+						if ex, isE := stripConv(cand).(*ssa.Extract); isE && ex.Index == 0 {
+							if pc, isP := staticCallNamed(ex.Tuple, "strconv.ParseInt"); isP && entry != nil && restAfterPrefix(pc.Call.Args[0], entry, "gfet4t7; dur=") {
+								if base, isB := constInt(pc.Call.Args[1]); isB && base == 10 {
+									good = true
+								}
 							}
+						}
+						if !good {
+							val = false
 						}
 					}
 				}
